@@ -138,6 +138,7 @@ class _Instrument:
         self.nloops = 0
         self.loopstack: list[int] = []
         self.ntry = 0
+        self.else_assigned: list[set[str]] = []
         self.alias = alias
 
     # -- syntactic facts
@@ -157,10 +158,11 @@ class _Instrument:
         self.orig.append(node)
         idx = len(self.orig)
         info = {"k": type(node).__name__, "t": ast.unparse(node), "r": self.reads(node), "ch": [], "d": [], "op": [],
-                "fn": "", "cls": [], "pats": [], "s": self.sid, "st": 0, "err": False,
+                "fn": "", "cls": [], "pats": [], "s": self.sid, "st": 0, "err": False, "wt": False,
                 "pos": ("pseudo", 0, 0, 0, 0) if pseudo else _pos(node)}
         if pseudo:
             info["k"] = "OldValue"
+        info["wt"] = any(set(info["r"]) & names for names in self.else_assigned)
         if isinstance(node, (ast.BinOp, ast.UnaryOp, ast.BoolOp)):
             info["op"] = [_OPS.get(type(node.op), "?")]
         elif isinstance(node, ast.Compare):
@@ -316,7 +318,10 @@ class _Instrument:
             names, extra = self._target_names(s.target)
             k = self.new_store(names, self.reads(s.iter) + extra, self._root(it))
             self.loopstack.append(L)
+            self.else_assigned.append({nd.id for st_ in s.orelse for nd in ast.walk(st_)
+                                       if isinstance(nd, ast.Name) and isinstance(nd.ctx, ast.Store)})
             body = [self.mark("it", L), self.mark("s", k)] + self.block(s.body)
+            self.else_assigned.pop()
             self.loopstack.pop()
             orelse = ([self.mark("lx", L)] + self.block(s.orelse)) if s.orelse else []
             new = ast.copy_location(ast.For(target=s.target, iter=it, body=body, orelse=orelse), s)
@@ -324,12 +329,16 @@ class _Instrument:
         if isinstance(s, ast.While):
             self.nloops += 1
             L = self.nloops
+            # names assigned in the else clause: the checker lets them reach the test and the body (see MiniPyTrace nd.wt)
+            self.else_assigned.append({nd.id for st_ in s.orelse for nd in ast.walk(st_)
+                                       if isinstance(nd, ast.Name) and isinstance(nd.ctx, ast.Store)})
             test = ast.BoolOp(op=ast.And(), values=[ast.Call(func=ast.Name(id="__mk__", ctx=ast.Load()),
                                                              args=[ast.Constant(value="it"), ast.Constant(value=L)], keywords=[]),
                                                     self.expr(s.test)])
             self.loopstack.append(L)
             body = self.block(s.body)
             self.loopstack.pop()
+            self.else_assigned.pop()
             orelse = ([self.mark("lx", L)] + self.block(s.orelse)) if s.orelse else []
             new = ast.copy_location(ast.While(test=test, body=body, orelse=orelse), s)
             return [self.mark("le", L), new, self.mark("lx", L)]
@@ -368,18 +377,18 @@ class _Instrument:
                 names = [nd.name for nd in ast.walk(c.pattern) if isinstance(nd, (ast.MatchAs, ast.MatchStar)) and nd.name]
                 names += [nd.rest for nd in ast.walk(c.pattern) if isinstance(nd, ast.MatchMapping) and nd.rest]
                 guard = self.expr(c.guard)
-                k = self.new_store(names, self.reads(s.subject), sidx)
+                k = self.new_store(names, self.reads(s.subject), sidx, via="guard" if c.guard is not None else "")
                 # the captures are bound before the guard runs
                 entered = [self.mark("xm", s.lineno)] if s.lineno in self.leaving_matches else []
                 if guard is not None:
                     guard = ast.BoolOp(op=ast.And(), values=[ast.Call(func=ast.Name(id="__mk__", ctx=ast.Load()),
                                                                       args=[ast.Constant(value="s"), ast.Constant(value=k)], keywords=[]), guard])
-                    body = entered + self.block(c.body)
+                    body = [self.mark("cb", 0)] + entered + self.block(c.body)
                 else:
-                    body = [self.mark("s", k)] + entered + self.block(c.body)
+                    body = [self.mark("s", k), self.mark("cb", 0)] + entered + self.block(c.body)
                 cases.append(ast.match_case(pattern=c.pattern, guard=guard, body=body))
             pre = [self.mark("xs", s.lineno)] if s.lineno in self.leaving_matches else []
-            return pre + [ast.copy_location(ast.Match(subject=subj, cases=cases), s)]
+            return pre + [ast.copy_location(ast.Match(subject=subj, cases=cases), s), self.mark("mx", 0)]
         if isinstance(s, ast.Delete):
             new = self._children(s, skip_func=False)
             out = [new]
@@ -625,7 +634,7 @@ def execute(prep: dict, ax: dict, ay: dict) -> tuple[list[dict], dict[str, int]]
 
     ns: dict[str, Any] = {"__rec__": rec, "__mk__": mk}
     old_handler = signal.signal(signal.SIGALRM, alarm)
-    signal.setitimer(signal.ITIMER_REAL, 3.0)       # safety net; the event cap and the size cap end every loop earlier
+    signal.setitimer(signal.ITIMER_REAL, 10.0)      # safety net; the event cap and the size cap end every loop earlier
     try:
         exec(prep["code"], ns)
         ns["f"](codec.obj_to_py(ax), codec.obj_to_py(ay))
@@ -774,6 +783,12 @@ CANNED = [
     ("with-mutation", "def f(x: int, y: int):", ["with maybe_suppress():", "    m.append(1)"], 1, 0, "dev:mutation-lost-on-exception-path"),
     ("jump-in-with", "def f(x: int, y: int):", ["with suppress(Exception):", "    while y:", "        continue", "    v = 'a'"], 1, 0,
      "dev:loop-jump-in-suppressing-with"),
+    ("failed-guard", "def f(x: list[int], y: int):", ["match x:", "    case [a, *rest] if rest:", "        return 1", "    case _:", "        v = 1"],
+     [1], 0, "dev:capture-kept-after-failed-guard"),
+    ("known-list-iadd", "def f(x: int, y: int):", ["if y:", "    m += [1]"], 1, 0, "dev:known-list-mutated-in-place"),
+    ("loop-else", "def f(x: list[tuple[int, str]], y: int):",
+     ["while x and isinstance(x[0], int):", "    x * 2", "else:", "    x -= 'a'"], [(1, "a")], 0, "dev:loop-else-assignment-seen-in-loop"),
+    ("from-any", "def f(x: bool, y: Union[Literal[1], Literal[2]]):", ["x = Box(x).first", "v = min(x, y)"], True, 1, "dom:flows-from-any"),
     ("abstract-truthy", "def f(x: Iterable[str], y: int):", ["v = (not x)"], [], 0, "dev:abstract-type-assumed-truthy"),
     ("extend-literal", "def f(x: list[int], y: int):", ["x += 'a'"], [1], 0, "dev:list-extend-literal-str-unchecked"),
     ("cross-eq", "def f(x: float, y: int):", ["if x == 1:", "    v = [x]"], 1.0, 0, "dom:cross-type-equality"),
@@ -859,12 +874,21 @@ def run(check: core.Check) -> None:
     check.add_tlc("emit1", em)
     singles = core.emitted_json(em)
     check.cov["single_statement_functions_enumerated"] = len(singles)
-    n1 = 2500 if quick else 31000
+    n1 = 2200 if quick else 31000
     if len(singles) > n1:
         singles = rnd.sample(singles, n1)
+    # the narrowing slice: every test in if / if-else / early return, every pattern (with and without guard) followed by
+    # a second case, each branch just reading x
+    nr = core.require_ok(core.run_tlc("MiniPyEmit", "MiniPy.narrow.cfg", timeout=1800), "MiniPy narrowing slice")
+    check.add_tlc("narrow", nr)
+    narrow = core.emitted_json(nr)
+    check.cov["narrowing_slice_functions_enumerated"] = len(narrow)
+    n2 = 2500 if quick else 30000
+    if len(narrow) > n2:
+        narrow = rnd.sample(narrow, n2)
     singles_y = core.simulate_cases("MiniPyEmit", "MiniPy.sim1y.cfg", 1200 if quick else 12000, depth=12, seed=check.seed + 3,
                                     check=check, first_num=400 if quick else 4000)
-    sim = core.simulate_cases("MiniPyEmit", "MiniPy.sim.cfg", 3000 if quick else 40000, depth=45, seed=check.seed + 6,
+    sim = core.simulate_cases("MiniPyEmit", "MiniPy.sim.cfg", 2800 if quick else 40000, depth=45, seed=check.seed + 6,
                               check=check, first_num=1200 if quick else 12000)
     check.cov["exhaustive"] = False
     check.cov["rule"] = (
@@ -875,6 +899,7 @@ def run(check: core.Check) -> None:
         "return/raise) by TLC simulation; x argument tuples drawn by TLC from the declared types (at most 6 per function); "
         "non-trivial = distinct source texts with at least one judged node evaluation")
     judge(check, singles, "tlc-single-statement")
+    judge(check, narrow, "tlc-narrowing-slice")
     judge(check, singles_y, "tlc-single-statement-xy")
     judge(check, sim, "tlc-simulate")
     ev = check.cov.get("node_evaluations", {})
